@@ -19,7 +19,7 @@ BOUNDS = {
     'reph': (6, 9, 8, 16), 'split': (6, 8, 8, 16), 'backspace_step': (8, 11, 1, 1), 'layout_values': (0, 0, 1, 1), 'layout_api': (1, 1, 1, 1),
     'phonetic_api': (1, 2, 8, 16), 'fixed_api': (1, 2, 8, 16), 'history_independence': (1, 2, 1, 1),
     'learn_recall': (1, 1, 1, 1), 'user_files': (1, 2, 1, 1), 'update_engine': (1, 1, 1, 1), 'smart_quote': (1, 2, 1, 1),
-    'ansi': (1, 1, 1, 1), 'emoji_tables': (1, 2, 8, 16), 'suffix_forms': (1, 2, 1, 1), 'fixed_rules': (4, 6, 8, 16),
+    'ansi': (1, 1, 1, 1), 'emoji_tables': (1, 2, 8, 16), 'suffix_forms': (1, 2, 1, 1), 'fixed_rules': (4, 6, 8, 16), 'fixed_dict': (1, 2, 8, 16),
 }
 
 
